@@ -84,6 +84,18 @@ TypeOK == /\ \A o \in Objects : content[o] \in Contents \cup {"none"}
 \* a frozen object's registrations never change afterwards (what makes results repeatable)
 FrozenRegsStable == [][\A o \in frozen : regs'[o] = regs[o]]_vars
 
+\* Objects with a read cursor (a JSON document read lexeme by lexeme, operation "Next"): the result of a "Next" is the
+\* element of the text's lexeme stream at the cursor, and the cursor then moves on.  The cursor is put back to the start
+\* by the first "Check" and by the first "Len" of the object (each walks the text once and answers from memory
+\* afterwards); nothing else moves it.  Check and Len themselves are functions of the text, wherever the cursor stands.
+IsRewind(j) == /\ hist[j].op \in {"Check", "Len"}
+               /\ ~\E m \in 1..(j - 1) : hist[m].obj = hist[j].obj /\ hist[m].op = hist[j].op
+CursorAt(i) == LET o == hist[i].obj
+                   rw == {j \in 1..(i - 1) : hist[j].obj = o /\ IsRewind(j)}
+                   from == IF rw = {} THEN 0 ELSE CHOOSE j \in rw : \A m \in rw : m <= j
+               IN Cardinality({j \in (from + 1)..(i - 1) : hist[j].obj = o /\ hist[j].op = "Next"})
+Cursors == [i \in 1..Len(hist) |-> IF hist[i].op = "Next" THEN CursorAt(i) ELSE -1]
+
 \* emission: every history that contains at least one call
-Emit == (Len(hist) >= 2 /\ hist[Len(hist)].op # "New") => PrintT(ToJson([hist |-> hist]))
+Emit == (Len(hist) >= 2 /\ hist[Len(hist)].op # "New") => PrintT(ToJson([hist |-> hist, cursor |-> Cursors]))
 ===============================================================================
